@@ -43,8 +43,16 @@ def _work(args):
         members[j]["prog"]["scan"] = lang.scan("one", 1)
     idents = [f"m{i}" for i in range(n)]
     texts = []
+    # the second kind of abort ("a failure in a function"): the exception is not raised inside a match component but when the matched
+    # line is handed to the caller - collect(99) keeps a header that line k does not have - so it escapes the member's run loop and the
+    # run method's own handler is the only one that sees it (member-major methods; the line-major loops do not cut lines down)
+    escape = method in archiverun.SERIAL and random.Random(f"escape|{seed}|{idx}").random() < 0.35
     for i, mc in enumerate(members):
-        if i == m and k == 0:
+        if i == m and escape:
+            mc["prog"]["scan"] = lang.scan("all")
+            mc["prog"]["comps"] = []
+            texts.append(f"~ id: m{i}{vm} ~ $data[*][ line_number() == {k} collect(99) ]")
+        elif i == m and k == 0:
             # the first line of the file is a line like any other: a member that scans it ($data[*]) can abort on it
             mc["prog"]["scan"] = lang.scan("all")
             mc["prog"]["comps"] = []
@@ -80,7 +88,7 @@ def _work(args):
         return {"oom": True}
     rec["abort"] = {"m": m + 1, "line": k}
     rec["tid"] = idx * 2
-    rec["_info"] = {"method": method, "texts": texts, "records": records, "abort_member": m, "abort_line": k, "raised": raised,
+    rec["_info"] = {"method": method, "texts": texts, "records": records, "abort_member": m, "abort_line": k, "raised": raised, "escaping": escape,
                     "recorded_abort": [log.abort_member, log.abort_line]}
     aborted_dir = pharness.run_dirs(cp.config.archive_path, "g")
     aborted_tree = pharness.tree_hashes(os.path.join(cp.config.archive_path, "g"))
@@ -197,7 +205,7 @@ def main(tier):
     rep.extra.update({"abort_points": len(items), "out_of_model": oom})
     rep.rule = (f"every (member index, line number) abort point in groups of 1-{maxn} generated csvpaths over files of {nrecs} records, for "
                 f"{len(methods)} run methods; each aborted run followed by one further run on the same instance. non-trivial = distinct (method, group, abort line).")
-    rep.assumptions = ["TLC; ArchiveTrace.tla AbortDiff", "the fault is injected through the DSL (mod(5, 0) under validation-mode raise)",
+    rep.assumptions = ["TLC; ArchiveTrace.tla AbortDiff", "the fault is injected through the DSL (mod(5, 0) under validation-mode raise; in a third of the member-major cases collect(99) on the aborting line: the exception is raised when the matched line is handed to the caller and escapes the member's run loop)",
                        "csvpath error policy: collect, print with validation-mode: raise on the aborting member, or the shipped default raise, collect, stop, fail, print; csvpaths policy: raise, collect"]
     return rep.finish()
 
